@@ -50,6 +50,9 @@ use std::fs;
 use std::io::{self, Read, Seek, SeekFrom, Write};
 use std::mem::size_of;
 use std::path::{Path, PathBuf};
+#[cfg(cfb_verif_sync)]
+use cfb_verif_sync::{Arc, RwLock, RwLockReadGuard, RwLockWriteGuard};
+#[cfg(not(cfb_verif_sync))]
 use std::sync::{Arc, RwLock, RwLockReadGuard, RwLockWriteGuard};
 
 use fnv::FnvHashSet;
